@@ -5,11 +5,14 @@ VARIABLES cfg, done
 Suffixes == {".csv", ".txt", "", ".pq", ".parquet", ".dat", ".PARQUET", ".Pq"}
 Cases == [n : 0..4, lattice : {"d4", "d6", "wide", "int"}, rots : {"rot24", "pi", "rotq", "tiny", "random"},
           feats : {"none", "ints", "mixed", "nulls", "special"}, prec : {-1, 2, 4, 6}, via : {"file", "csv", "parquet", "frame"},
-          suffix : Suffixes, layout : {"c", "f"}]     \* layout: memory order of the position array handed to Molecules
+          suffix : Suffixes, layout : {"c", "f"}, prep : {"none", "inplace"}]     \* layout: memory order of the position array handed to Molecules
 Valid(c) == /\ (c.via = "frame" => c.suffix = "" /\ c.prec = -1)
             /\ (c.via = "parquet" => c.prec = -1 /\ c.suffix \in {".pq", ".x"} \cup {".parquet"})
             /\ (c.via = "csv" => c.suffix = ".csv")
-            /\ (c.via = "file" => c.prec \in {-1, 4})       \* to_file uses the default precision (4)
+            /\ (c.via = "file" => c.prec \in {-1, 4})
+            \* prep = "inplace": the table is shifted in place before it is saved (exact formats only: the shifted coordinates are
+            \* not on the decimal lattices of the csv cases)
+            /\ (c.prep = "inplace" => (c.via \in {"parquet", "frame"} \/ (c.via = "file" /\ c.suffix \in {".pq", ".parquet"})) /\ c.n > 0 /\ c.layout = "c")       \* to_file uses the default precision (4)
 Init == cfg \in {c \in Cases : Valid(c)} /\ done = FALSE
 Next == ~done /\ done' = TRUE /\ UNCHANGED cfg
 Spec == Init /\ [][Next]_<<cfg, done>>
